@@ -209,6 +209,153 @@ def configure(model, info, art):
                                                      f"with seq_nums {[e['seq_num'] for e in evs]}")
 
 
+def configure_program(model, info, art):
+    """C16: run the program of the counter-example (info['program'], see replay/c16_spec.py) on a real RunBundler - 'configure'
+    through a real RunEngine._configure - with the configuration values of the counter-model, and judge the emitted documents
+    with the same monitor as the symbolic side; confirmed iff the clause of the failed obligation is violated natively"""
+    from replay import c16_spec as S
+    from replay.common import real
+    from bluesky import RunEngine
+    program, flyer, clause = info["program"], info.get("flyer"), info.get("clause") or art.get("obligation")
+    problems = []
+    spec = S.native_spec(problems)
+    b, out = _bundler(False)
+    RE = RunEngine({}, context_managers=[])
+    RE._run_bundlers[None] = b
+    base = {"det": 100.0, "other": 200.0, "fly": 300.0}
+    dk = {"dtype": "number", "shape": [], "source": "sim"}
+
+    class Dev:
+        parent = None
+
+        def __init__(self, name, keys):
+            self.name, self.keys, self.hints = name, keys, {"fields": list(keys)}
+            self.n, self.cbs, self.count = 0, [], 0
+            self._report()
+
+        def _report(self):
+            k = self.n
+            self.gain = real(model.get(f"{self.name}_gain{k}"), base[self.name] + k + 0.5)
+            self.ts = real(model.get(f"{self.name}_ts{k}"), 7000 + base[self.name] + k + 0.25)
+            spec.device_reports(self.name, {"gain": (self.gain, self.ts)})
+
+        def read_configuration(self):
+            return {"gain": {"value": self.gain, "timestamp": self.ts}}
+
+        def describe_configuration(self):
+            return {"gain": dict(dk)}
+
+        def configure(self, k):
+            old = self.read_configuration()
+            self.n += 1
+            self._report()
+            return old, self.read_configuration()
+
+    class Det(Dev):
+        def read(self):
+            self.count += 1
+            return {k: {"value": self.count, "timestamp": float(self.count)} for k in self.keys}
+
+        def describe(self):
+            return {k: dict(dk) for k in self.keys}
+
+        def subscribe(self, cb, **kw):
+            self.cbs.append(cb)
+
+        def clear_sub(self, cb):
+            self.cbs.remove(cb)
+    D = {"det": Det("det", ["x"]), "other": Det("other", ["y"])}
+    if flyer:
+        keys = {"fly": ["fx", "fz"], "fly2": ["fy"]}
+        streams = keys if flyer["describe"] == "nested" else {"fly": keys["fly"]}
+
+        class FlyBase(Dev):
+            def kickoff(self):
+                return None
+
+            def complete(self):
+                return None
+
+            def describe_collect(self):
+                if flyer["describe"] == "nested":
+                    return {s: {k: dict(dk) for k in ks} for s, ks in streams.items()}
+                return {k: dict(dk) for k in streams["fly"]}
+
+        class EventsFlyer(FlyBase):
+            def collect(self):
+                for _ in range(2):
+                    for s, ks in streams.items():
+                        self.count += 1
+                        yield {"data": {k: self.count for k in ks}, "timestamps": {k: float(self.count) for k in ks}, "time": float(self.count)}
+
+        class PagesFlyer(FlyBase):
+            def collect_pages(self):
+                for s, ks in streams.items():
+                    self.count += 2
+                    yield {"data": {k: [self.count - 1, self.count] for k in ks}, "timestamps": {k: [1.0, 2.0] for k in ks}, "time": [1.0, 2.0]}
+        class AssetsFlyer(FlyBase):
+            first, idx = True, 0
+
+            def describe_collect(self):
+                return {"fx": dict(dk, dtype="array", shape=[1], external="STREAM:")}
+
+            def get_index(self):
+                return self.idx + 2
+
+            def collect_asset_docs(self, index=None):
+                from event_model import StreamRange
+                if self.first:
+                    yield "stream_resource", {"uid": "sr-fx", "data_key": "fx", "mimetype": "x", "uri": "file://x", "parameters": {}}
+                yield "stream_datum", {"uid": f"sr-fx/{self.idx}", "stream_resource": "sr-fx", "descriptor": "",
+                                       "indices": StreamRange(start=self.idx, stop=self.idx + 2), "seq_nums": StreamRange(start=0, stop=0)}
+                self.first, self.idx = False, self.idx + 2
+        D["fly"] = {"events": EventsFlyer, "pages": PagesFlyer, "assets": AssetsFlyer}[flyer["kind"]]("fly", [])
+
+    async def act(a):
+        if a[0] in ("bundle", "dropped"):
+            await b.create(Msg("create", name=a[1]))
+            for o in a[2]:
+                await b.read(Msg("read", D[o]), D[o].read())
+            await (b.save(Msg("save")) if a[0] == "bundle" else b.drop(Msg("drop")))
+        elif a[0] == "declare":
+            await b.declare_stream(Msg("declare_stream", None, *[D[o] for o in a[2]], name=a[1]))
+        elif a[0] == "declare_fly":
+            await b.declare_stream(Msg("declare_stream", None, D[a[2]], name=a[1], collect=True))
+        elif a[0] == "monitor":
+            await b.monitor(Msg("monitor", D[a[1]], name=a[2]))
+        elif a[0] == "tick":
+            for cb in list(D[a[1]].cbs):
+                cb()
+        elif a[0] == "collect":
+            await b.kickoff(Msg("kickoff", D[a[1]]))
+            await b.collect(Msg("collect", D[a[1]], **({"name": a[2]} if a[2] else {})))
+        elif a[0] == "configure":
+            await RE._configure(Msg("configure", D[a[1]], D[a[1]].n + 1))
+        else:
+            raise ValueError(f"unknown action {a}")
+
+    async def go():
+        await b.open_run(Msg("open_run"))
+        del out[:]
+        for a in program:
+            n0 = len(out)
+            spec.begin(a)
+            raised = None
+            try:
+                await act(a)
+            except Exception as e:   # noqa
+                raised = f"{type(e).__name__}: {e}"[:200]
+            for name, doc in out[n0:]:
+                spec.doc(name, doc)
+            spec.end(raised)
+    asyncio.run(go())
+    mine = [d for c, d in problems if c == clause]
+    if mine:
+        return "confirmed", f"{len(program)} actions; violated natively: " + " | ".join(mine[:3])
+    others = sorted({c for c, d in problems})
+    return "contradicted", f"{len(program)} actions {program}: the clause holds natively" + (f" (other clauses violated: {others})" if others else "")
+
+
 def lifecycle(model, info, art):
     """a run with bundles, a monitor and interruption records: the emitted documents must form start ... stop with
     backward references only, and a second close_run must be refused"""
